@@ -24,6 +24,11 @@ def mk_compare(pid):
             return go == m, go == s
         if pid == "C04" and (case.startswith("VALID ") or case.startswith("FINITE ")):
             return replay_premise(case, go, m, s)
+        if case.startswith("E2E "):
+            # resumption through the library's own server and client: the ID presented is the request's Last-Event-ID as
+            # Upgrade / Server.getSubscription hand it to the provider (with and without OnSession topics)
+            import p_e2e
+            return p_e2e.cmp_c05(case, go, m, s)
         corr = m == "accept"
         if s == "ok":
             return corr, True
@@ -36,7 +41,7 @@ def mk_compare(pid):
 
 
 def hist(case, go):
-    if case[0] in "VF" or case.startswith(("SPUB ", "SPUBH ")):
+    if case[0] in "VF" or case.startswith(("SPUB ", "SPUBH ", "E2E ")):
         return ["op:" + case.split(" ")[0]]
     parts = go.split(" ## ")
     if len(parts) != 3:
@@ -93,6 +98,8 @@ def nontrivial(case, go):
         return any(c.isdigit() for c in go)
     if case[0] in "VF":
         return "R=S" in go
+    if case.startswith("E2E "):
+        return "resumed=0" not in go
     return ",pa" in go and ",sa" in go or go.startswith("sa")
 
 
@@ -122,7 +129,8 @@ def register(PROPS):
                          {"id": "SPUB", "quick": 2000, "thorough": 60000, "thorough_seeds": 6}]} if pid == "C03" else {}),
             **({"gens": [{"id": "C04", "quick": 2500, "thorough": 60000, "thorough_seeds": 12, "race": True, "gomaxprocs": [1, 2, 16]},
                          {"id": "C09", "quick": 12000, "thorough": 300000, "thorough_seeds": 8},
-                         {"id": "C08", "quick": 8000, "thorough": 200000, "thorough_seeds": 8}]} if pid == "C04" else {}),
+                         {"id": "C08", "quick": 8000, "thorough": 200000, "thorough_seeds": 8},
+                         {"id": "C05", "quick": 150, "thorough": 4000, "thorough_seeds": 4}]} if pid == "C04" else {}),
             "facts": {"hooks": ["Joe.Publish:3", "Joe.Shutdown:5", "Joe.Subscribe:7", "Joe.closeSubscribers:1", "Joe.init:6",
                                 "Joe.removeSubscriber:1", "Joe.start:11"]},
         }
